@@ -120,8 +120,8 @@ class _ExpressionParser:
     Grammar:
         expr       -> term (('+' | '-') term)*
         term       -> power (('*' | '/' | '//' | '%') power)*
-        power      -> unary ('**' power)?
-        unary      -> '-' unary | primary
+        power      -> unary
+        unary      -> '-' unary | primary ('**' unary)?
         primary    -> NUMBER | IDENT | IDENT '(' args ')' | '(' expr ')'
         args       -> expr (',' expr)*
     """
@@ -198,23 +198,15 @@ class _ExpressionParser:
         return left
 
     def _parse_power(self) -> sympy.Expr:
-        """Parse a power expression (handles **)."""
-        base = self._parse_unary()
-
-        if (
-            self.current_token is not None
-            and self.current_token[0] == "OP"
-            and self.current_token[1] == "**"
-        ):
-            self._advance()
-            # Right-associative
-            exponent = self._parse_power()
-            return base**exponent
-
-        return base
+        """Parse a power expression (handles ** and unary -)."""
+        return self._parse_unary()
 
     def _parse_unary(self) -> sympy.Expr:
-        """Parse a unary expression (handles unary -)."""
+        """Parse a unary expression (handles unary - and **).
+
+        ``**`` binds tighter than a unary minus on its left (``-a**2`` is ``-(a**2)``),
+        is right-associative, and accepts a unary minus in the exponent (``a**-1``).
+        """
         if (
             self.current_token is not None
             and self.current_token[0] == "OP"
@@ -223,7 +215,17 @@ class _ExpressionParser:
             self._advance()
             return -self._parse_unary()
 
-        return self._parse_primary()
+        base = self._parse_primary()
+        if (
+            self.current_token is not None
+            and self.current_token[0] == "OP"
+            and self.current_token[1] == "**"
+        ):
+            self._advance()
+            # Right-associative
+            exponent = self._parse_unary()
+            return base**exponent
+        return base
 
     def _parse_primary(self) -> sympy.Expr:
         """Parse a primary expression (number, identifier, function call, or parenthesized expression)."""
